@@ -510,3 +510,8 @@ Proof.
   destruct (lock_exact_l reg n d c o vs ch kvs WF Hn H) as (f' & path & l & v & A' & L & D & V & E).
   rewrite A in A'. inversion A'; subst f'. rewrite (All path l v L D V) in E. discriminate.
 Qed.
+
+(* "unless developer mode is explicit": with developer_mode = True the lock validator passes whatever the fields hold *)
+Lemma explicit_developer_mode_unlocks_l : forall gov f,
+  get_leaf "developer_mode" f = Some (JBool true) -> run_vid VDevMode gov f = None.
+Proof. intros gov f H. cbn [run_vid]. unfold v_devmode. now rewrite H. Qed.
